@@ -10,7 +10,7 @@ group law on every valid point).  The exponents are obtained by running the mode
 interpreter on the EXTRACTED programs over ℤ inside the kernel (`PP.Proofs.Chains`).
 
 What is a hypothesis, visibly, in the subgroup clauses: the group order / exponent of the curve
-(`#E'(Fq2) = h2 · r`, resp. `exp E(Fq) ∣ (1 − x) · r`), which is out of reach of this development.
+(`#E'(Fq2) = h2 · r`, resp. `exp E(Fq) ∣ (1 − x) · r`), which is a hypothesis HERE and is PROVED in PP.Props.CurveOrder (`g1_exponent`, `g2_order`).
 -/
 import PP.Proofs.Chains
 
